@@ -24,6 +24,10 @@ MASK64 = (1 << 64) - 1
 # The property text itself only asks for *a* maximiser: switched off, the position inside the run is recorded as a
 # feature and not judged.
 STRICT_FIRST_OF_RUN = True
+# Behaviour the property text does not reach (NaN kept -> ValueError; constant arrays and stub histograms with empty end
+# bins -> first centre through 0/0) is compared with the model and the outcome recorded as a feature
+# ("outside-property:...:as-modelled" / "...:DIFFERS(recorded only)"); it is judged (impl-vs-model) only with this switch on.
+JUDGE_OUTSIDE_PROPERTY = False
 
 
 def fnum(v):
@@ -518,6 +522,8 @@ class C15(Prop):
             raw = run_otsu(x)
             agrees = isinstance(raw, dict) and raw.get("raises") == "ValueError"
             feats.add("outside-property:NaN-kept->ValueError:" + ("as-modelled" if agrees else "DIFFERS(recorded only)"))
+            if JUDGE_OUTSIDE_PROPERTY and not agrees:
+                model_ok = False
         return outcome(impl, model, spec, spec_ok=spec_ok, model_ok=model_ok, features=feats)
 
     def check_binning(self, case, flat, clean, isint, hist, edges, ctx):
@@ -576,6 +582,8 @@ class C15(Prop):
             mt = float(unrat(rep["threshold"]))
             agrees = (not isinstance(t, dict)) and t == mt and rep["first_nan"] == rep["index"]
             feats.add("outside-property:constant-array->first-centre-via-NaN:" + ("as-modelled" if agrees else "DIFFERS(recorded only)"))
+            if JUDGE_OUTSIDE_PROPERTY and not agrees:
+                return outcome({"threshold": t}, {"threshold": mt}, {}, spec_ok=True, model_ok=False, hyp=False, features=feats, note=note)
         return outcome({}, {}, {}, hyp=False, features=feats, note=note)
 
     def eval_stub(self, case, ctx):
@@ -605,8 +613,8 @@ class C15(Prop):
             return outcome({}, {"first_nan": rep["first_nan"], "index": rep["index"]}, {}, model_ok=False, spec_ok=True, hyp=False,
                            features=[], note="model: empty end bin without NaN")
         feats = {"outside-property:stub-histogram(" + kind + "):" + ("as-modelled" if agrees else "DIFFERS(recorded only)")}
-        return outcome({"threshold": t}, {"threshold": mt, "first_nan": rep["first_nan"]}, {}, spec_ok=True, model_ok=True,
-                       hyp=False, features=feats)
+        return outcome({"threshold": t}, {"threshold": mt, "first_nan": rep["first_nan"]}, {}, spec_ok=True,
+                       model_ok=agrees or not JUDGE_OUTSIDE_PROPERTY, hyp=False, features=feats)
 
     # ------------------------------------------------------------------ shrinking
     def shrink(self, case):
